@@ -222,6 +222,119 @@ def body_steps(case):
     return labels
 
 
+# ---- coverage-guided fuzzing of the C++ step function under ASan + UBSan (libFuzzer, clang 14) ---------------
+
+VERIF_DIR = os.path.dirname(os.path.dirname(os.path.dirname(os.path.abspath(__file__))))
+EVIDENCE_DIR = os.environ.get("NSSVERIF_EVIDENCE_DIR", os.path.join(VERIF_DIR, "evidence"))
+
+
+def _asan_cases(tier):
+    yield {"runs": 4000 if tier == "quick" else 400000, "seed": int(os.environ.get("VERIF_SEED", "1") or "1")}
+
+
+def _build_asan_target():
+    """One translation unit: the tree's zsteps.cpp, then the fuzz target; clang++ -fsanitize=fuzzer,address,undefined."""
+    import hashlib
+    import subprocess
+
+    from .. import build_zsteps as bz
+
+    src = bz.source_path()
+    tgt = os.path.join(VERIF_DIR, "nssverif", "fuzz", "zsteps_fuzz.cpp")
+    h = hashlib.sha1()
+    for p_ in (src, tgt, os.path.join(bz.STUB, "pybind11", "pybind11.h")):
+        h.update(open(p_, "rb").read())
+    exe = os.path.join(bz.BUILD, f"zsteps_asan_{h.hexdigest()[:16]}")
+    if os.path.exists(exe):
+        return exe
+    os.makedirs(bz.BUILD, exist_ok=True)
+    tu = exe + ".cpp"
+    with open(tu, "w") as f:
+        f.write(f'#include <cstring>\n#include "{src}"\n#include "{tgt}"\n')
+    tmp = exe + f".tmp{os.getpid()}"
+    cmd = ["clang++", "-std=c++17", "-O1", "-g", "-fno-omit-frame-pointer", "-fsanitize=fuzzer,address,undefined", "-fno-sanitize-recover=undefined", "-I", bz.STUB, tu, "-o", tmp]
+    r = subprocess.run(cmd, capture_output=True, text=True)
+    if r.returncode != 0:
+        raise HarnessError("zsteps.cpp does not build with clang++ and the sanitizers against the stand-in header:\n" + r.stderr[-2000:])
+    os.replace(tmp, exe)
+    return exe
+
+
+def body_asan(case):
+    import json
+    import shutil
+    import subprocess
+    import tempfile
+
+    exe = _build_asan_target()
+    env = dict(os.environ, ASAN_OPTIONS="abort_on_error=1:detect_leaks=1:symbolize=1", UBSAN_OPTIONS="print_stacktrace=1")
+    if "input_hex" in case:  # replay of a saved failing input, without the fuzzer loop
+        work = tempfile.mkdtemp(prefix="nssverif_c06_asan_")
+        try:
+            f = os.path.join(work, "input.bin")
+            open(f, "wb").write(bytes.fromhex(case["input_hex"]))
+            r = subprocess.run([exe, f], env=env, capture_output=True, text=True, timeout=600)
+        finally:
+            shutil.rmtree(work, ignore_errors=True)
+        if r.returncode != 0:
+            raise Violation(_asan_reason(r.stderr))
+        return {"replayed_input"}
+    work = tempfile.mkdtemp(prefix="nssverif_c06_asan_")
+    try:
+        corpus = os.path.join(work, "corpus")
+        os.makedirs(corpus)
+        # starting corpus: a few production-like argument tuples (26 bytes each) next to the empty corpus behaviour
+        for i, (ua, ub, ud, s1, s2) in enumerate([(0.0, 0.0, 0.0, 0x00, 0x00), (0.5, 0.5, 0.5, 0x24, 0x04), (0.999, 0.1, 0.9, 0x0C | 4, 0x01), (0.25, 0.97, 0.01, 0x20 | 1, 0x02)]):
+            b = b"".join(int(u * (2**64 - 1)).to_bytes(8, "little") for u in (ua, ub, ud)) + bytes([s1, s2])
+            open(os.path.join(corpus, f"seed{i}"), "wb").write(b)
+        cmd = [exe, f"-runs={case['runs']}", f"-seed={case['seed'] or 1}", "-max_len=32", "-len_control=0", "-timeout=120", f"-artifact_prefix={work}/", "-print_final_stats=1", corpus]
+        r = subprocess.run(cmd, env=env, capture_output=True, text=True, timeout=6 * 3600)
+        arts = sorted(fn for fn in os.listdir(work) if fn.startswith(("crash-", "timeout-", "oom-", "leak-")))
+        if arts:
+            data = open(os.path.join(work, arts[0]), "rb").read()
+            raise Violation(f"{_asan_reason(r.stderr)} [found by libFuzzer under ASan+UBSan; artifact {arts[0].split('-')[0]}]", replay_case={"input_hex": data.hex()})
+        if r.returncode != 0:
+            raise HarnessError(f"the sanitizer fuzz target exited with {r.returncode} without an artifact: {r.stderr[-1500:]}")
+        stats = {}
+        for ln in r.stderr.splitlines():
+            if ln.startswith("stat::"):
+                k, v = ln[6:].split(":")
+                stats[k.strip()] = int(v)
+        cov = [ln for ln in r.stderr.splitlines() if " cov: " in ln]
+        stats["libfuzzer_last_status"] = cov[-1].strip() if cov else ""
+        stats["corpus_files"] = len(os.listdir(corpus))
+        os.makedirs(EVIDENCE_DIR, exist_ok=True)
+        with open(os.path.join(EVIDENCE_DIR, ".c06_asan_stats.json"), "w") as f:
+            json.dump(stats, f)
+    finally:
+        shutil.rmtree(work, ignore_errors=True)
+    labels = {"fuzz"}
+    if stats.get("number_of_executed_units", 0) >= case["runs"]:
+        labels.add("budget_executed")
+    return labels
+
+
+def _asan_reason(stderr):
+    for ln in stderr.splitlines():
+        if "ORACLE-MISMATCH" in ln:
+            return "C++ step function: " + ln.split("ORACLE-MISMATCH:", 1)[1].strip()
+    for ln in stderr.splitlines():
+        if "ERROR: AddressSanitizer" in ln or "runtime error:" in ln or "ERROR: libFuzzer" in ln or "ERROR: LeakSanitizer" in ln:
+            return "C++ step function under the sanitizers: " + ln.strip()[:400]
+    return "C++ step function failed under the sanitizers: " + stderr[-400:]
+
+
+def extra_evidence():
+    import json
+
+    p_ = os.path.join(EVIDENCE_DIR, ".c06_asan_stats.json")
+    if os.path.exists(p_):
+        st_ = json.load(open(p_))
+        os.remove(p_)
+        return {"step_function_sanitizer_fuzz": st_}
+    return {}
+
+
 SUBCHECKS = [
     SubCheck(
         "float32_vs_model",
@@ -259,5 +372,15 @@ SUBCHECKS = [
         lambda labels: True,
         {"quick": 150, "thorough": 5000},
         doc="C++ zsteps (rebuilt from the tree) == own Python step loop to 1e-12; monotone; start and end conditions",
+    ),
+    SubCheck(
+        "step_function_sanitizers",
+        None,
+        body_asan,
+        lambda labels: "budget_executed" in labels or "replayed_input" in labels,
+        {"quick": 1},
+        doc="libFuzzer + AddressSanitizer + UBSan on the tree's zsteps.cpp (4 000 executions quick, 400 000 thorough; both overloads; bytes decoded into production's argument domain incl. detector altitudes 20-36000 km); oracle in the target: own long-double step loop with a different step formula, monotonicity, start/end conditions, equal array lengths",
+        exhaustive=_asan_cases,
+        tolerances={"step length": "1e-8 rel + 1e-11", "mid-point": "5e-7 km (accumulated rounding of <= 40 000 steps)"},
     ),
 ]
